@@ -140,6 +140,8 @@ def plan(tier, seed):
         items.append(("boundary", "asan", lo, 3))
     for i in range(6):
         items.append(("hbcgap", "asan", i))
+    for i in range(8):
+        items.append(("blkrepeat", "asan", i))
     # enumerated two-frame cycles repeated without reset: cumulative drift of a buffer cursor or counter (complete in both tiers)
     for c0 in range(0, 256, 8):
         items.append(("pairloop", "asan", c0, 8, 150 if tier == "quick" else 900))
@@ -227,6 +229,18 @@ def work(item, ctx):
             lines += ["rx %x 1 05" % (0x700 + 10 + sub - 1), "tick 120", "hbevents %d" % (10 + sub - 1)]
         lines += ["rx 0 2 82%02x" % nid, "tick 60"] + lines[:12]
         run_history(res, exe, cfg, lines, ("hbcgap", idx))
+    elif kind == "blkrepeat":
+        # a peer that repeats one frame of an open transfer for ever: the last segment of a block download (c bit, sequence number 1)
+        # instead of the end request, a segment of a block with a running sequence number, the same download segment
+        _, variant, idx = item
+        exe = ctx["exes"][variant]
+        cfg = H.full_config(random.Random(7), 1, nodeid=1, tmrnum=16, freq=1000)
+        sub = [0, 7, 8, 9][idx % 4]                # domains of 1, 889, 890 and 1778+ bytes
+        init = "rx 601 8 %s" % (bytes([0xC2 if idx < 4 else 0xC0, 0x20, 0x20, sub]) + (2000).to_bytes(4, "little")).hex()
+        lines = ["restart", "start", init] + ["rx 601 8 81aabbccddeeff00"] * 300 + ["rx 601 8 c100000000000000", "rx 601 8 8020200000000000"]
+        lines += [init] + ["rx 601 8 %02xaabbccddeeff00" % (1 + k % 127) for k in range(400)] + ["rx 601 8 8020200000000000"]
+        lines += ["rx 601 8 %s" % (bytes([0x21, 0x20, 0x20, sub]) + (2000).to_bytes(4, "little")).hex()] + ["rx 601 8 00aabbccddeeff00", "rx 601 8 10aabbccddeeff00"] * 300
+        run_history(res, exe, cfg, lines, ("blkrepeat", idx))
     elif kind == "boundary":
         # block downloads whose buffered data ends exactly at / around the transfer buffer size (127 segments = 889 bytes):
         # last segment flagged or not, 0/1/2/127 more in-order data segments behind it, end frame with n in {0, 6, 7}
